@@ -448,6 +448,19 @@ class Check:
             "correspondence harness /verif/harness (generators, canonicalisers), Python/numpy/torch/gymnasium",
         ]
         self.notes["theorems"] = names
+        if self.tier == "thorough":
+            # independent re-check of the compiled property file and everything it depends on
+            rc2, out2, err2, dt2 = run(["coqchk", "-silent", "-o", "-Q", COQ, "SB3V", f"SB3V.Props.{self.pid}"], timeout=1800, cwd=COQ)
+            txt = out2 + err2
+            m = re.search(r"\* Axioms:(.*?)(?:\n\s*\n|\Z)", txt, re.S)
+            self.notes["coqchk"] = {"rc": rc2, "wall_s": round(dt2, 1),
+                                    "axioms": [a.strip() for a in (m.group(1).strip().split("\n") if m else []) if a.strip()][:60],
+                                    "tail": txt[-400:]}
+            if rc2 != 0:
+                self.proof_ok = False
+                self.broken.append({"where": f"coqchk SB3V.Props.{self.pid}", "error": txt[-800:]})
+                self.coverage["discharged"] = 0
+                return False
         return True
 
     # ---- reporting ----
